@@ -753,7 +753,7 @@ func runZone(sc *Scenario, res *core.Result, logf func(string, ...any)) {
 		for _, f := range sc.Files {
 			total += len(f.Text())
 		}
-		if total <= 600 {
+		if total <= 600 && len(ref.recs) <= 2000 { // (a tree with a large $GENERATE is parsed once per octet otherwise: minutes, not a hang)
 			res.Bump("fault.exhaustive_sweep")
 			for _, f := range sc.Files {
 				for at := 0; at <= len(f.Text()); at++ {
